@@ -2,8 +2,8 @@
    from C13/Proofs.v and followed by Print Assumptions. The model [fd] is the
    interpreter (C13/Model.v) of the tables REGENERATED from
    odl/discr/diff_ops.py:finite_diff into Gen/FiniteDiff.v. *)
-From Coq Require Import Reals Lia List Bool.
-From Verif Require Import Base.Num Base.Vec Base.VecR Lib.Axis Lib.AxisR C13.Syntax Gen.FiniteDiff C13.Model C13.ModelNd C13.Proofs C13.ProofsNd C13.ProofsLap C13.ProofsAffine.
+From Coq Require Import QArith Qreals Reals Lia List Bool.
+From Verif Require Import Base.Num Base.Vec Base.VecR Lib.Axis Lib.AxisR C13.Syntax Gen.FiniteDiff C13.Model C13.ModelNd C13.Proofs C13.ProofsNd C13.ProofsLap C13.ProofsAffine Base.Transfer C13.Transfer.
 Import ListNotations.
 Local Open Scope R_scope.
 
@@ -148,3 +148,12 @@ Theorem fd_constant_padding_derivative :
   fd m PConstant c dx (vadd f h) = vadd (fd m PConstant c dx f) (fd m PConstant 0 dx h).
 Proof. exact fd_const_affine. Qed.
 Print Assumptions fd_constant_padding_derivative.
+
+(* Tie between the two instances: the model EXECUTED at Q by the correspondence
+   shards is the rational restriction of the model the theorems above are about
+   (Q2R commutes with fd, for the regenerated tables, whenever dx <> 0). *)
+Theorem fd_executed_is_restriction :
+  forall (m : meth) (p : pmode) (c dx : Q) (f : list Q), ~ (dx == 0)%Q ->
+  map Q2R (fd m p c dx f) = fd m p (Q2R c) (Q2R dx) (map Q2R f).
+Proof. exact fd_transfer. Qed.
+Print Assumptions fd_executed_is_restriction.
